@@ -99,3 +99,12 @@ Print Assumptions C09_truncation_error_is_discarded_weight.
 Example C09_example : keep_dw QN [1; 1#2; 1#10; 1#100]%Q (2#100)%Q 1 8 false = 2%nat
   /\ (tail_weight QN [1; 1#2; 1#10; 1#100]%Q 2 <= 2#100)%Q /\ (2#100 < tail_weight QN [1; 1#2; 1#10; 1#100]%Q 1)%Q.
 Proof. vm_compute. repeat split; discriminate. Qed.
+
+(* the three ways of distributing the singular values give the same product, entry by entry, at every kept rank (LinAlg/TT.v) *)
+Theorem C09_distributions_give_the_same_product : forall (K : Type) (k0 k1 : K) (kadd kmul ksub : K -> K -> K) (kopp : K -> K),
+  ring_theory k0 k1 kadd kmul ksub kopp (@eq K) ->
+  forall keep (U : nat -> nat -> K) (s r : nat -> K) (V : nat -> nat -> K), (forall k, s k = kmul (r k) (r k)) -> forall a b,
+  bsum K k0 kadd keep (fun k => kmul (kmul (U a k) (s k)) (V k b)) = bsum K k0 kadd keep (fun k => kmul (U a k) (kmul (s k) (V k b))) /\
+  bsum K k0 kadd keep (fun k => kmul (kmul (U a k) (s k)) (V k b)) = bsum K k0 kadd keep (fun k => kmul (kmul (U a k) (r k)) (kmul (r k) (V k b))).
+Proof. exact svd_distributions. Qed.
+Print Assumptions C09_distributions_give_the_same_product.
